@@ -35,7 +35,8 @@ ASSUME Injective
 ASSUME PrintT(<<"TABLE", "codegen_paths", ToJson(Rows)>>)
 
 (* The typed pipeline: what the handler does / what travels -> what the typed caller gets *)
-Handler == {"ok", "status"}             \* handler returns a response message / an error Status
+Handler == {"ok", "status", "status_bare"}   \* handler returns a response message / an error Status with a
+                                             \* message and headers / an error Status with headers only
 Payload == {"good", "garbage"}          \* request payload decodable by the server's codec or not
 Pipeline(h, p) ==
   IF p = "garbage" THEN [result |-> "err", code |-> 520, handler_ran |-> FALSE]        \* Unknown, handler not run
